@@ -16,6 +16,11 @@ Case = {'ops': [...], optional 'auto': true, 'friends0': [u...], 'offline': 'dro
     ['gate', u, send_outcome, resp_outcome, m]   release whatever network call u's worker is parked in
                                              (resp_outcome 'silence' = let 10 s pass instead)
     ['adv', seconds]                      virtual time passes
+    ['fire', u]                           virtual time passes up to the instant u's pending retry is due (everything due
+                                          earlier happens first) and the retry timer fires — but the loop iteration in
+                                          which the retry task wakes up and puts its request on the queue has not run yet:
+                                          the following ops with '+' are issued inside that one-iteration window (ahead of
+                                          the retry request on the queue, while `_cancel_retry` can no longer stop the task)
     ['close'] | ['close', reason]         ConnectionStateChangedEvent(ServerConnection, CLOSED[, CloseReason[reason]]), then
                                           (what the client's own CLOSED listener does) SessionDestroyedEvent when a session
                                           exists
@@ -28,13 +33,21 @@ Case = {'ops': [...], optional 'auto': true, 'friends0': [u...], 'offline': 'dro
                                           'u' queued upload; transfers are numbered 0, 1, … in creation order
     ['tfin', k, how, m]                   transfer k reaches a final state: `abort()` / `state.fail()`
     ['tque', k, m]                        finished transfer k is queued again (`queue()`)
-    ['trm', k, m]                         `remove()`
+    ['trm', k, m]                         `remove()`, start to end
+    ['trmb', k, holds, m]                 `remove()` started as a task of its own ("clear all" = several of them at once):
+                                          it runs until it waits in a listener the schedule holds — 'a' the transfer's state
+                                          listener told about the abort, 'r' the listener of TransferRemovedEvent — or ends;
+                                          the following ops (other removals, additions, cycles, …) run while it waits there
+    ['trmc', k, m]                        the removal of k goes on to its next hold, or to its end
     ['cycle', m]                          one `TransferManager.manage_user_tracking()` (scripted cases only)
     ['tm', unfinished, finished, m]       (older replay files) = the transfers are replaced by these, then one cycle
   free-running cases ('auto': the management tasks of both managers are started and decide themselves when a cycle
   runs; the stub network drops / refuses what is sent while no server connection exists; monitor only, no model):
     ['quiesce']                           answer everything "exists", let retries come due, until nothing moves
     ['restart']                           close, `stop()` of both managers, `start()` again (client.stop()/start())
+    ['trmg', [k, …], u|None]              `asyncio.gather(remove(k), …[, download(u, …)])` — with 'peer': 'hang' (no peer is
+                                          reachable: every message for a peer stays "connecting" until cancelled) every
+                                          queued download has its queue request in flight, which `remove()` has to cancel
 Every op first moves the virtual clock by one tick (1/1024 s): two timers of one user never fall due at the
 same instant, so the order in which asyncio fires them is not left to heap tie-breaking.
 After the scripted ops every parked call is released (send ok / exists) until the system is quiescent.
@@ -68,7 +81,7 @@ ME = 'me'
 DELAY = {'sendfail': 10, 'timeout': 10, 'error': 10, 'notexists': 600}
 STATE_CH = {'untracked': 'U', 'tracked': 'T', 'retry_pending': 'P'}
 F_REQ, F_TR, F_FR = 1, 2, 4
-WORLD_OPS = ('login', 'friend', 'tadd', 'tfin', 'tque', 'trm', 'cycle', 'tm', 'quiesce', 'restart')
+WORLD_OPS = ('login', 'friend', 'tadd', 'tfin', 'tque', 'trm', 'trmb', 'trmc', 'trmg', 'cycle', 'tm', 'quiesce', 'restart')
 _VERIF_ROOT = os.path.dirname(os.path.dirname(os.path.abspath(__file__)))
 
 
@@ -120,6 +133,7 @@ class _Run:
         self.loop = loop
         self.auto = bool(case.get('auto'))
         self.offline_mode = case.get('offline', 'drop')
+        self.peer_hang = case.get('peer') == 'hang'
         self.world = _is_world(case)
         self.settings = Settings(credentials={'username': ME, 'password': 'pw'})
         for u in case.get('friends0', []):
@@ -137,6 +151,15 @@ class _Run:
         self.gates: dict[str, list] = {}
         self._listener = self._on_state_event          # EventBus holds listeners weakly
         self.bus.register(UserTrackingStateChangedEvent, self._listener)
+        self.rm: dict[int, dict] = {}                  # removals in progress: transfer number -> task, holds, gate, …
+        if self.world:
+            from aioslsk.events import TransferRemovedEvent
+            self._rm_listener = self._on_transfer_removed
+            self.bus.register(TransferRemovedEvent, self._rm_listener)
+        self.unsettled = False                         # something may be runnable that has not run (last op had + or !)
+        self.fire_pending = False                      # a retry timer has fired, its task has not run yet (`fire`)
+        self.retry_due: dict[str, float] = {}          # virtual time at which the documented retry of the last failure is due
+        self.model_cut = None                          # from this line on the model is not compared (see `_rm_step`)
         self.epochs: list[dict] = []                   # finished epochs (monitor log)
         self.ep = self._new_epoch()
         self.lines: list[str] = []                     # concrete executed ops (model protocol)
@@ -175,6 +198,10 @@ class _Run:
     def outcome(self, user: str, kind: str):
         self.ep['outcomes'].setdefault(user, []).append((self.now(), kind))
         self.ep['log'].setdefault(user, []).append((self.now(), kind))
+        if kind in DELAY:
+            self.retry_due[user] = self.loop.time() + DELAY[kind]
+        else:
+            self.retry_due.pop(user, None)
 
     def ref_call(self, name: str, add: bool, flag: int):
         """a request the reference expects (an application call made now, or what an owner can see now)"""
@@ -234,6 +261,80 @@ class _Run:
 
     async def on_transfer_state_changed(self, transfer, old, new):      # TransferStateListener of every transfer
         self.sample_truth()
+        st = next((x for x in self.rm.values() if x['t'] is transfer), None)
+        if st is not None and 'a' in st['holds'] and transfer.is_finalized() and asyncio.current_task() is st['task']:
+            await self._rm_park(st, 'a')
+
+    async def _on_transfer_removed(self, event):                        # listener of TransferRemovedEvent
+        st = next((x for x in self.rm.values() if x['t'] is event.transfer), None)
+        if st is not None and 'r' in st['holds'] and asyncio.current_task() is st['task']:
+            await self._rm_park(st, 'r')
+
+    async def _rm_park(self, st: dict, where: str):
+        st['holds'] = st['holds'].replace(where, '')
+        st['gate'] = self.loop.create_future()
+        st['at'] = where
+        try:
+            await st['gate']
+        finally:
+            st['gate'] = None
+            st['at'] = None
+
+    def removal_looks(self, name: str):
+        """a `remove()` has taken a transfer of this user off the list, or ends: an instant at which the owner may look.
+        When no transfer of the user is left nobody but `remove` itself can withdraw the reason now or at the next cycle;
+        when only finished ones are left it may as well do what the next cycle would. WHEN the reason is withdrawn (when the
+        transfer leaves the list, at the end of `remove`, by the next cycle, or by a cycle that remembers) is the owner's
+        business: from here on the exact fold of requests is no reference for this user (the observable reasons after a
+        cycle still are, once no removal is in progress)"""
+        mine = [x for x in self.mgr.transfers if x.username == name]
+        if all(x.is_finalized() for x in mine):
+            self.owner_step()
+            if name not in self.ep['lenient_users']:
+                self.ep['lenient_users'].append(name)
+            if not mine:
+                self.ref_call(name, False, F_TR)
+
+    def rm_pending(self) -> list:
+        """users a removal in progress is about to ask about: their transfer is off the list, the removal has not ended"""
+        return sorted({st['t'].username for st in self.rm.values() if st['t'] not in self.mgr.transfers})
+
+    async def _rm_step(self, k: int, st: dict, m: str) -> tuple[str, str]:
+        """the removal of k was started / released: let it run to its next hold or its end; returns the steps it took
+        ('1' existence check + abort, '2' off the list, '3' the end) and the modifier that really applied"""
+        plus = m == '+' and not self.unsettled
+        await asyncio.sleep(0)
+        n = 1
+        while not (st['task'].done() or st['gate'] is not None) and n < 64:
+            await asyncio.sleep(0)
+            n += 1
+        if plus and n == 1:
+            m = '+'
+            self.unsettled = True
+        else:
+            await simloop.settle()
+            m = '.'
+            self.unsettled = False
+            self.fire_pending = False
+        t = st['t']
+        seen = '1' + ('2' if (t not in self.mgr.transfers or st['task'].done()) else '') + ('3' if st['task'].done() else '')
+        new = seen[len(st['seen']):]
+        if not (st['task'].done() or st['gate'] is not None) or not new:
+            # the removal waits for something the schedule does not control (a timer, a lock): from here on the case is
+            # judged by the monitor only (this op included when there is no step to tell the model about)
+            if self.model_cut is None:
+                self.model_cut = len(self.lines) - (0 if new else 1)
+        if '2' in new:
+            self.tr_clean = False
+        if '2' in new or '3' in new:
+            self.removal_looks(t.username)
+        st['seen'] = seen
+        if st['task'].done():
+            del self.rm[k]
+            if not st['task'].cancelled() and st['task'].exception() is not None:
+                e = st['task'].exception()
+                self.problems.append(('C15-impl-error', f'remove() raised {type(e).__name__}: {e}'))
+        return new, m
 
     # -- observation -----------------------------------------------------------------------------
     def observe_user(self, name: str) -> str:
@@ -263,14 +364,19 @@ class _Run:
             'tr_clean': self.tr_clean, 'app_bits': self.app_bits, 'watch': sorted(self.watch),
             'lost_sessions': self.lost_sessions, 'lenient': self.ep['lenient'],
             'lenient_users': list(self.ep['lenient_users']),
+            'rm_pending': self.rm_pending() if self.mgr is not None else [],
         })
 
     # -- ops -------------------------------------------------------------------------------------
     async def after(self, m: str):
+        if m == '!' and self.fire_pending:
+            m = '.'             # one iteration for the retry task, one more for the worker it wakes: `!` = `.` here
         if m == '.':
             await simloop.settle()
+            self.fire_pending = False
         elif m == '!':
             await asyncio.sleep(0)
+        self.unsettled = m != '.'
 
     def transfer(self, k):
         return self.xfers[k] if isinstance(k, int) and 0 <= k < len(self.xfers) else None
@@ -302,10 +408,14 @@ class _Run:
                 self.lines.append('adv 10')
                 await simloop.advance(10)
                 m = '.'
+                self.unsettled = False
+                self.fire_pending = False
             elif gs and gs[0][0] == 'W' and ro == 'silence':
                 self.lines.append('adv 10')
                 await simloop.advance(10)
                 m = '.'
+                self.unsettled = False
+                self.fire_pending = False
             elif gs and gs[0][0] == 'W':
                 self.lines.append(f'resp {u} {ro} {m}')
                 self.outcome(name, ro)
@@ -330,6 +440,48 @@ class _Run:
             self.lines.append(f'adv {op[1]}')
             await simloop.advance(op[1])
             m = '.'
+            self.unsettled = False
+            self.fire_pending = False
+        elif kind == 'fire':
+            _, u = op
+            name = NAMES[u]
+            await simloop.settle()                            # whatever is runnable runs first
+            self.unsettled = False
+            self.fire_pending = False
+            due = self.retry_due.get(name)
+            h = None
+            if (not self.auto and due is not None and not self.gates.get(name)
+                    and self.um.get_tracking_state(name).value == 'retry_pending' and self.loop.time() <= due):
+                # the retry task's timer. The task starts its sleep in the loop iteration after the one in which the attempt
+                # failed: when the schedule moved the clock in between (modifier `!`), one tick later than the failure.
+                # `ops` = ticks the schedule has spent in ops since the attempt failed: a plain `adv` lands that many ticks
+                # after the due instant, and so does `fire` (sitting exactly on the instant would leave the timers armed a
+                # few ops later a few ticks ahead, to fall due by the tick of an op instead of by an `adv`)
+                eps = TICK / 4
+                last = self.ep['outcomes'][name][-1]
+                ops_since = (self.now() - last[0]) % 1024
+                near = [x for x in self.loop._scheduled if not x._cancelled
+                        and due - 2 * TICK - eps <= x._when <= due + (ops_since + 8) * TICK + eps]
+                if len(near) == 1 and due - eps <= near[0]._when <= due + TICK + eps:
+                    h = near[0]
+            if h is None:
+                # no retry is pending (or another timer is due within a few ticks of it: which of the two fires first
+                # would be left to the tick rounding): nothing to aim at, time just does not pass
+                self.lines.append('adv 0')
+                m = '.'
+            else:
+                off = round((h._when - due) / TICK) + ops_since + 2
+                self.lines.append(f'fire {u} {off}')
+                if self.loop.time() < due - TICK:
+                    await simloop.advance(due - TICK - self.loop.time())      # everything due earlier happens first
+                self.loop._vt = max(self.loop._vt, due + off * TICK)
+                # iteration 1: the timer handle runs (the retry task's sleep is over, its wake-up is scheduled);
+                # iteration 2: we are ahead of that wake-up in the ready queue — the window
+                await asyncio.sleep(0)
+                await asyncio.sleep(0)
+                m = '+'
+                self.unsettled = True
+                self.fire_pending = True
         elif kind == 'close':
             await self.close(op[1] if len(op) > 1 else None)
             return
@@ -380,6 +532,33 @@ class _Run:
             self.xfers.append(t)
             self.tr_clean = False
             await self.after(m)
+        elif kind in ('trmb', 'trmc'):
+            k, m = op[1], op[-1]
+            st = self.rm.get(k)
+            t = self.transfer(k) if kind == 'trmb' else None
+            if (kind == 'trmb' and t is None) or (kind == 'trmc' and (st is None or st['gate'] is None)):
+                # no such transfer / it is being removed already / no removal of k waits anywhere
+                self.lines.append(f'trmp {k} {"1" if kind == "trmb" else "3"} .')
+                await simloop.settle()
+                self.unsettled = False
+                self.fire_pending = False
+                pre = 'refused '
+                m = '.'
+            else:
+                if kind == 'trmb':
+                    st = {'t': t, 'holds': ''.join(h for h in 'ar' if h in op[2]), 'gate': None, 'at': None, 'seen': '',
+                          'task': None}
+                    self.rm[k] = st
+                    self.xfers[k] = None
+                    self.tr_clean = False
+                    st['task'] = asyncio.ensure_future(self.mgr.remove(t))
+                else:
+                    gate, st['gate'] = st['gate'], None
+                    gate.set_result(None)
+                at = len(self.lines)
+                self.lines.append(None)
+                new, m = await self._rm_step(k, st, m)
+                self.lines[at] = f'trmp {k} {new or "-"} {m}'
         elif kind in ('tfin', 'tque', 'trm'):
             k, m = op[1], op[-1]
             self.lines.append(f'{kind} {k} {m}')
@@ -399,14 +578,7 @@ class _Run:
                 await self.mgr.remove(t)
                 self.xfers[k] = None
                 self.tr_clean = False
-                if not any(x.username == t.username for x in self.mgr.transfers):
-                    # nobody but `remove` itself can withdraw the reason of this user now or at the next cycle; WHEN it
-                    # is withdrawn (here, or by a cycle that remembers) is the owner's business: from here on the exact
-                    # fold of requests is no reference for this user (the observable reasons after a cycle still are)
-                    self.owner_step()
-                    if t.username not in self.ep['lenient_users']:
-                        self.ep['lenient_users'].append(t.username)
-                    self.ref_call(t.username, False, F_TR)
+                self.removal_looks(t.username)
             await self.after(m)
         elif kind == 'cycle':
             m = op[1]
@@ -436,6 +608,33 @@ class _Run:
             if op[3] == '.':
                 await self.do(['adv', 0])
             return
+        elif kind == 'trmg':
+            # (free-running) several calls on the manager at once, as an application's "clear all" makes them
+            if not self.auto:
+                raise ValueError('`trmg` in a scripted case')
+            from aioslsk.transfer.model import Transfer as _T  # noqa: F401
+            ts = [self.transfer(k) for k in op[1]]
+            calls = [self.mgr.remove(t) for t in ts if t is not None]
+            for k in op[1]:
+                if self.transfer(k) is not None:
+                    self.xfers[k] = None
+
+            async def add(name):
+                t = await self.mgr.download(name, f'@@a\\{len(self.xfers)}.mp3')
+                t.state_listeners.append(self)
+                self.xfers.append(t)
+
+            if op[2] is not None:
+                calls.append(add(NAMES[op[2]]))
+            res = await asyncio.gather(*calls, return_exceptions=True)
+            for e in res:
+                if isinstance(e, BaseException) and not isinstance(e, Exception):
+                    raise e
+                if isinstance(e, Exception):
+                    self.problems.append(('C15-impl-error', f'remove() / download() raised {type(e).__name__}: {e}'))
+            self.tr_clean = False
+            await simloop.settle()
+            m = '.'
         elif kind == 'quiesce':
             await self.quiesce()
             return
@@ -461,6 +660,7 @@ class _Run:
         conn = ServerConnection('1.1.1.1', 2242, self.net)
         self.online = False
         self.watch.clear()
+        self.retry_due.clear()
         event = ConnectionStateChangedEvent(conn, ConnectionState.CLOSED) if reason is None else \
             ConnectionStateChangedEvent(conn, ConnectionState.CLOSED, CloseReason[reason])
 
@@ -473,6 +673,8 @@ class _Run:
 
         t = asyncio.ensure_future(closed())
         await simloop.settle()
+        self.unsettled = False
+        self.fire_pending = False
         if not t.done():
             self.problems.append(('C15-close-hangs',
                                   'handling of the server CLOSED event never completes (a tracking task '
@@ -519,6 +721,14 @@ class _Run:
 
     async def drain(self):
         await self.do(['adv', 0])          # let whatever the last op left runnable run first
+        for _ in range(8):                 # every removal that still waits in a listener goes on to its end
+            waiting = [k for k, st in self.rm.items() if st['gate'] is not None]
+            if not waiting:
+                break
+            for k in waiting:
+                await self.do(['trmc', k, '.'])
+        if self.rm:
+            self.problems.append(('C15-impl-error', 'remove() does not return although nothing holds it'))
         for _ in range(40):
             await simloop.settle()
             parked = [(n, gs[0][0]) for n in NAMES for gs in [self.gates.get(n, [])] if gs]
@@ -612,7 +822,7 @@ class _StubNet(_StandIn):
 
     async def send_peer_messages(self, username, *messages, raise_on_error: bool = True):
         from aioslsk.protocol.messages import PeerTransferQueue
-        if all(isinstance(m, PeerTransferQueue.Request) for m in messages):
+        if all(isinstance(m, PeerTransferQueue.Request) for m in messages) and not self.run.peer_hang:
             return None                       # delivered: the download waits in the uploader's queue
         await self.run.loop.create_future()   # anything else: the peer never answers (the attempt hangs until cancelled)
 
@@ -635,6 +845,9 @@ async def _run_case_async(loop, case: dict) -> dict:
     else:
         await r.drain()
     r.epochs.append(r.ep)
+    if r.model_cut is not None:
+        del r.lines[r.model_cut:]
+        del r.obs[r.model_cut:]
     return {'lines': [] if r.auto else r.lines, 'obs': r.obs, 'epochs': r.epochs, 'checkpoints': r.checkpoints,
             'problems': r.problems, 'loop_exceptions': loop.exceptions[:3], 'auto': r.auto, 'world': r.world}
 
@@ -736,6 +949,8 @@ def _monitor_truth(case: dict, res: dict, flag):
             u = cp['users'][n]
             if u['gates']:
                 continue
+            if n in cp.get('rm_pending', ()):
+                continue        # a `remove()` has taken the user's transfer off the list and has not ended yet
             where = f'user {n} after op #{cp["op"]}'
             t = cp['truth'][n]
             exp = _bits(t, cp['session'])
@@ -864,31 +1079,34 @@ def _monitor(case: dict, res: dict) -> list[Violation]:
                          f'{where}: attempt failed ({last[1]}) at tick {last[0]}, a reason remains, '
                          f'{DELAY[last[1]]} s have passed and no retry was sent',
                          observed={'now': cp['now']}, required={'retry_at': due})
-    # retries: every AddUser that does not open a block is justified by an earlier failed attempt whose
-    # documented delay has passed — and whose retry was not called off: a RemoveUser sent before the retry
-    # was due means the reasons had become empty, "only while a reason remains"
+    # retries ("never otherwise" / "retried after the documented delay only while a reason remains"): an AddUser that
+    # repeats an AddUser is the retry of the attempt before it — the last thing that happened for this user is that
+    # attempt FAILING, and the documented delay for that kind of failure has passed since. Not: after an attempt that
+    # was answered "exists", not while an attempt is unanswered, not early.
     for ep in epochs:
         for n, log in ep.get('log', {}).items():
-            fails: list[int] = []        # due ticks of failures that may still justify a retry
-            prev = None
+            prev = None          # the last request: 'A' | 'R'
+            last = None          # the last entry: request or outcome
             for t, k in log:
-                if k in DELAY:
-                    fails.append(t + DELAY[k] * 1024)
+                if k.upper() not in ('A', 'R'):
+                    last = (t, k)
                     continue
                 k = k.upper()
-                if k == 'R':
-                    fails = [d for d in fails if d <= t]
-                elif k == 'A' and prev == 'A':
-                    ok = sorted(d for d in fails if d <= t)
-                    if not ok:
+                if k == 'A' and prev == 'A':
+                    if last is None or last[1] not in DELAY:
                         flag('C15-spurious-retry',
-                             f'user {n}: AddUser re-sent at tick {t} without a failed attempt whose documented '
-                             f'retry delay has passed while a reason remained (retries still due at ticks: {fails})',
-                             observed={'at': t}, required={'due': fails})
+                             f'user {n}: AddUser re-sent at tick {t} although the attempt before it did not fail: the last '
+                             f'thing that happened for this user is {last and last[1]!r} at tick {last and last[0]} (a retry '
+                             f'that was called off, or no retry at all)', observed={'at': t, 'last': last})
                         break
-                    fails.remove(ok[0])
-                if k in ('A', 'R'):
-                    prev = k
+                    due = last[0] + DELAY[last[1]] * 1024
+                    if t < due:
+                        flag('C15-spurious-retry',
+                             f'user {n}: AddUser re-sent at tick {t}, but the attempt before it failed ({last[1]}) at tick '
+                             f'{last[0]}: the documented retry is due at tick {due}', observed={'at': t}, required={'due': due})
+                        break
+                prev = k
+                last = (t, k)
     return vs
 
 
@@ -960,8 +1178,10 @@ def _gen_random(rng: random.Random) -> list:
             calls += 1
         elif x < 0.80:
             ops.append(_gate(rng, u if rng.random() < 0.3 else -1))
-        elif x < 0.95:
+        elif x < 0.93:
             ops.append(['adv', rng.choice(ADV)])
+        elif x < 0.95:
+            ops.append(['fire', u])
         else:
             ops.append(['close'])
             believed = [0, 0]
@@ -1033,7 +1253,53 @@ def _tmpl_retry(rng):
     return ops
 
 
-TEMPLATES = [_tmpl_exit_window, _tmpl_noop_exit, _tmpl_close_in_cancel, _tmpl_retry]
+def _fail(rng, u):
+    """ops that make u's pending AddUser attempt fail (send failure / not-exists / error / silence)"""
+    how = rng.choice(['sendfail', 'notexists', 'silence', 'error'])
+    if how == 'sendfail':
+        return [['gate', u, 'fail', 'exists', '.']]
+    return [['gate', u, 'ok', 'exists', '.'], ['gate', u, 'ok', how, '.']]
+
+
+def _tmpl_retry_window(rng):
+    """calls land in the loop iteration between "the retry timer fired" and "the retry task put its request": they are
+    ahead of the retry request on the queue, and cancelling the retry task comes too late"""
+    u = rng.randrange(2)
+    f = _flag(rng)
+    ops = [['track', u, f, '.']] + _fail(rng, u)
+    if rng.random() < 0.3:                      # the retry itself fails once more: a second timer
+        ops += [['adv', rng.choice([10, 600, 601])], *_fail(rng, u)]
+    ops.append(['fire', u])
+    y = rng.random()
+    g = f if rng.random() < 0.5 else _flag(rng)
+    if y < 0.45:
+        w = [['untrack', u, 7 if rng.random() < 0.5 else f, '+'], ['track', u, g, '+']]
+        if rng.random() < 0.3:
+            w += [['untrack', u, 7, '+'], ['track', u, _flag(rng), '+']]
+    elif y < 0.6:
+        w = [['untrack', u, 7 if rng.random() < 0.5 else f, '+']]
+    elif y < 0.75:
+        w = [['track', u, _flag(rng), '+']]
+    elif y < 0.85:
+        w = [['untrack', u, 7, '+'], ['track', 1 - u, _flag(rng), '+']]
+    elif y < 0.92:
+        w = [_close(rng)]
+    else:
+        w = []
+    if w and w[-1][0] != 'close' and rng.random() < 0.5:
+        w[-1][-1] = rng.choice(['.', '!'])       # the window ends with this call
+    ops += w
+    for _ in range(rng.randint(2, 6)):           # the workers catch up; attempts are answered (some fail again)
+        ops.append(_good(u) if rng.random() < 0.7 else _gate(rng, u))
+    if rng.random() < 0.6:
+        ops += [['adv', rng.choice([9, 10, 11, 600, 601])], _gate(rng, u), _gate(rng, u)]
+    if rng.random() < 0.3:
+        ops += [['fire', u], ['untrack', u, 7, '+'], ['track', u, _flag(rng), '.'], _good(u), _good(u), _good(u)]
+    return ops
+
+
+TEMPLATES = [_tmpl_exit_window, _tmpl_noop_exit, _tmpl_close_in_cancel, _tmpl_retry, _tmpl_retry_window,
+             _tmpl_retry_window]
 
 
 # -- the world: session, friends list, transfers (scripted: every step of an owner is an op of the schedule) --------
@@ -1043,6 +1309,7 @@ class _Book:
 
     def __init__(self):
         self.x: list = []            # k -> [user, 'U' unfinished | 'F' finished | None removed]
+        self.going: dict = {}        # removals in progress: k -> number of holds they still wait at
 
     def add(self, rng, u, m=None, kinds='qpu'):
         self.x.append([u, 'U'])
@@ -1063,6 +1330,26 @@ class _Book:
     def rm(self, rng, k, m=None):
         self.x[k][1] = None
         return ['trm', k, m if m is not None else _mod(rng)]
+
+    def rmb(self, rng, k, holds=None, m=None):
+        """`remove()` of k as a task that waits where the schedule holds it"""
+        if holds is None:
+            holds = rng.choice(['r', 'r', 'ar', 'a', ''])
+        # the abort only tells the listeners when it changes the state
+        waits = sum(1 for h in holds if h == 'r' or self.x[k][1] == 'U')
+        self.x[k][1] = None
+        if waits:
+            self.going[k] = waits
+        return ['trmb', k, holds, m if m is not None else rng.choices(['.', '+'], weights=[3, 1])[0]]
+
+    def rmc(self, rng, k=None, m=None):
+        """a removal that waits goes on"""
+        if k is None:
+            k = rng.choice(sorted(self.going))
+        self.going[k] -= 1
+        if not self.going[k]:
+            del self.going[k]
+        return ['trmc', k, m if m is not None else rng.choices(['.', '+'], weights=[3, 1])[0]]
 
     def change(self, rng, u=None, m=None, kinds='qpu'):
         """some change of the transfers (of user u)"""
@@ -1180,6 +1467,47 @@ def _tmpl_remove_last(rng):
     return ops, {}
 
 
+def _tmpl_overlapping_removes(rng):
+    """several `remove()` calls in progress at once ("clear all"), additions and cycles while a removal waits in the
+    middle: whichever ends last has to see that no transfer of the user is left"""
+    book = _Book()
+    u = rng.randrange(2)
+    ops = [book.add(rng, u, '.', 'qp') for _ in range(rng.choice([1, 2, 2, 3]))]
+    if rng.random() < 0.3:
+        ops.append(book.add(rng, 1 - u, '.', 'qp'))
+    if rng.random() < 0.3:
+        ops.append(book.fin(rng, book.pick(rng, 'U'), '.'))
+    if rng.random() < 0.9:
+        ops.insert(rng.randrange(len(ops) + 1), ['login'])
+    if rng.random() < 0.85:
+        ops += [['cycle', '.'], _good(-1), _good(-1), _good(-1)]
+    ks = [k for k, (uu, st) in enumerate(book.x) if st is not None and (uu == u or rng.random() < 0.5)]
+    rng.shuffle(ks)
+    pending = list(ks)
+    steps = 0
+    while (pending or book.going) and steps < 14:
+        steps += 1
+        y = rng.random()
+        if pending and (y < 0.45 or not book.going):
+            ops.append(book.rmb(rng, pending.pop()))
+        elif book.going and y < 0.8:
+            ops.append(book.rmc(rng))
+        elif y < 0.88:
+            ops.append(book.add(rng, u, None, 'qp'))
+        elif y < 0.94:
+            ops.append(['cycle', _mod(rng)])
+        else:
+            ops.append(_gate(rng, -1))
+    while book.going:
+        ops.append(book.rmc(rng, None, '.'))
+    ops += [_good(-1), _good(-1)]
+    if rng.random() < 0.85:
+        ops += [['cycle', '.'], _good(-1), _good(-1)]
+    if rng.random() < 0.3:
+        ops += [book.add(rng, u, '.', 'qp'), ['cycle', '.'], _good(-1), _good(-1)]
+    return ops, {}
+
+
 def _gen_world_random(rng):
     book = _Book()
     ops: list = []
@@ -1192,7 +1520,11 @@ def _gen_world_random(rng):
         session = True
     for _ in range(rng.randint(4, 16)):
         x = rng.random()
-        if x < 0.22:
+        if x < 0.05 and book.going:
+            ops.append(book.rmc(rng))
+        elif x < 0.09 and any(st is not None for _u, st in book.x):
+            ops.append(book.rmb(rng, rng.choice([k for k, (_u, st) in enumerate(book.x) if st is not None])))
+        elif x < 0.22:
             ops.append(book.change(rng))
         elif x < 0.40:
             ops.append(['cycle', _mod(rng)])
@@ -1214,7 +1546,8 @@ def _gen_world_random(rng):
     return ops, extra
 
 
-WORLD_TEMPLATES = [_tmpl_session_loss, _tmpl_session_loss, _tmpl_world_cycles, _tmpl_remove_last, _gen_world_random]
+WORLD_TEMPLATES = [_tmpl_session_loss, _tmpl_session_loss, _tmpl_world_cycles, _tmpl_remove_last, _gen_world_random,
+                   _tmpl_overlapping_removes, _tmpl_overlapping_removes]
 
 
 # -- free-running: the management tasks of both managers decide themselves when the owners look ---------------------
@@ -1279,7 +1612,45 @@ def _gen_auto_random(rng):
     return ops, extra
 
 
-AUTO_TEMPLATES = [_tmpl_auto_loss, _tmpl_auto_loss, _gen_auto_random]
+def _tmpl_auto_clear_all(rng):
+    """free-running, no peer reachable: every queued download has its queue request to the peer in flight, `remove()`
+    has to cancel it and waits for that; several removals (and an addition) are made at once"""
+    book = _Book()
+    u = rng.randrange(2)
+    extra: dict = {'peer': 'hang'}
+    if rng.random() < 0.3:
+        extra['friends0'] = rng.choice([[0], [1], [0, 1]])
+    ops = [['login']] if rng.random() < 0.8 else []
+    for _ in range(rng.choice([1, 2, 2, 3])):
+        ops.append(book.add(rng, u, '.', 'q' if rng.random() < 0.8 else 'qp'))
+    if rng.random() < 0.4:
+        ops.append(book.add(rng, 1 - u, '.', 'qp'))
+    if not ops or ops[0] != ['login']:
+        ops.append(['login'])
+    ops.append(['quiesce'])
+    if rng.random() < 0.2:
+        ops += [_close(rng), ['adv', rng.choice([1, 5])], ['login'], ['quiesce']]
+    ks = [k for k, (uu, st) in enumerate(book.x) if st is not None and (uu == u or rng.random() < 0.3)]
+    rng.shuffle(ks)
+    while ks:
+        n = rng.choice([1, 2, 2, 3])
+        now, ks = ks[:n], ks[n:]
+        for k in now:
+            book.x[k][1] = None
+        add = None
+        if rng.random() < 0.35:
+            add = u if rng.random() < 0.8 else 1 - u
+            book.x.append([add, 'U'])
+        ops.append(['trmg', now, add])
+        if rng.random() < 0.5:
+            ops.append(['quiesce'] if rng.random() < 0.7 else ['adv', rng.choice([1, 2, 5])])
+    ops.append(['quiesce'])
+    if rng.random() < 0.3:
+        ops += [book.add(rng, u, '.', 'q'), ['quiesce']]
+    return ops, extra
+
+
+AUTO_TEMPLATES = [_tmpl_auto_loss, _tmpl_auto_loss, _gen_auto_random, _tmpl_auto_clear_all]
 
 
 def _gen_case(rng: random.Random) -> dict:
@@ -1317,7 +1688,8 @@ def _malformed(rng: random.Random) -> dict:
            ['gate', 0, 'ok', 'exists', '.'], ['gate', 0, 'ok', 'exists', '.'], ['gate', 0, 'fail', 'exists', '.'],
            ['untrack', 1, 7, '.'], ['close'], ['close'], ['gate', 0, 'ok', 'exists', '.'],
            ['tfin', 0, 'abort', '.'], ['tadd', 1, 'p', '.'], ['tque', 0, '.'], ['trm', 3, '+'], ['tfin', 0, 'abort', '.'],
-           ['tfin', 0, 'fail', '!'], ['trm', 0, '.'], ['trm', 0, '.']]
+           ['tfin', 0, 'fail', '!'], ['trm', 0, '.'], ['trm', 0, '.'], ['fire', 0], ['fire', 1], ['trmc', 0, '.'],
+           ['trmb', 5, 'r', '.'], ['trmc', 1, '+']]
     rng.shuffle(ops)
     return {'ops': ops, 'kind': 'malformed'}
 
@@ -1347,12 +1719,35 @@ WITNESS_LOSS_AUTO = {'ops': [['login'], ['tadd', 0, 'q', '.'], ['tadd', 0, 'p', 
                      'friends0': [1], 'auto': True, 'offline': 'drop', 'kind': 'witness-session-loss-auto'}
 
 
+# the retry timer fires, untrack + track land before its task has put the request (duplicate AddUser to a tracked user
+# before fixes/C15-stale-retry-after-retrack.patch)
+WITNESS_STALE_RETRY = {'ops': [['track', 0, 1, '.'], ['gate', 0, 'fail', 'exists', '.'], ['fire', 0], ['untrack', 0, 1, '+'],
+                               ['track', 0, 1, '+'], ['adv', 0], ['gate', 0, 'ok', 'exists', '.'], ['gate', 0, 'ok', 'exists', '.'],
+                               ['gate', 0, 'ok', 'exists', '.'], ['adv', 30]],
+                       'kind': 'witness-stale-retry'}
+# "clear all": the removals of a user's last two transfers overlap; a transfer added while the only one is being removed
+WITNESS_CLEAR_ALL = {'ops': [['login'], ['tadd', 0, 'q', '.'], ['tadd', 0, 'q', '.'], ['cycle', '.'],
+                             ['gate', 0, 'ok', 'exists', '.'], ['gate', 0, 'ok', 'exists', '.'], ['trmb', 0, 'r', '.'],
+                             ['trmb', 1, 'ar', '.'], ['trmc', 0, '.'], ['trmc', 1, '.'], ['trmc', 1, '.'],
+                             ['gate', 0, 'ok', 'exists', '.'], ['cycle', '.'], ['tadd', 0, 'q', '.'], ['cycle', '.'],
+                             ['gate', 0, 'ok', 'exists', '.'], ['gate', 0, 'ok', 'exists', '.'], ['trmb', 2, 'r', '.'],
+                             ['tadd', 0, 'p', '.'], ['trmc', 2, '+'], ['cycle', '.']],
+                     'kind': 'witness-clear-all'}
+WITNESS_CLEAR_ALL_AUTO = {'ops': [['login'], ['tadd', 0, 'q', '.'], ['tadd', 0, 'q', '.'], ['quiesce'], ['trmg', [0, 1], None],
+                                  ['quiesce'], ['tadd', 0, 'q', '.'], ['quiesce'], ['trmg', [2], 0], ['quiesce']],
+                          'auto': True, 'offline': 'drop', 'peer': 'hang', 'kind': 'witness-clear-all-auto'}
+
+
 def _is_nontrivial(case: dict, res: dict) -> bool:
     """at least one AddUser attempt, and at least one call issued while that user's worker was busy (parked
     in a network call) or had not run since the previous op (modifiers + / !) — or (world cases) an AddUser attempt
-    made after a session was lost"""
+    made after a session was lost, or a `remove()` that waited in the middle while something else happened"""
     if not any(k in 'Aa' for ep in res['epochs'] for at in ep['attempts'].values() for _, k in at):
         return False
+    if any(ln.startswith('trmp ') and ln.split()[2] not in ('123', '-') for ln in res['lines']):
+        return True
+    if res.get('auto') and any(op[0] == 'trmg' and len(op[1]) + (op[2] is not None) > 1 for op in case['ops']):
+        return True
     if res.get('world') and any(cp['lost_sessions'] and cp['nattempts'][n] for cp in res['checkpoints']
                                 if not cp['after_close'] for n in NAMES):
         return True
@@ -1379,25 +1774,38 @@ class C15(Property):
     rule = ('schedules derived from VERIF_SEED. (1) 70 %: <= 8 track/untrack calls with any non-empty flag set for 1..2 '
             'users, each issued settled / one loop iteration after / back-to-back with the previous op, interleaved with '
             'releases of the worker\'s pending network call (send ok|failure, exists|not-exists|error|silence), '
-            'virtual-time advances around the 10 s / 600 s delays and server closes; a third of them from scenario '
-            'templates (exit window, no-op exit, close during retry cancellation, retries) with random prefixes. '
+            'virtual-time advances around the 10 s / 600 s delays, server closes and `fire` (virtual time moves to the '
+            'instant a retry is due and the timer fires, the following back-to-back calls land in the one loop iteration '
+            'before the retry task puts its request); a third of them from scenario templates (exit window, no-op exit, '
+            'close during retry cancellation, retries, calls inside the retry window) with random prefixes. '
             '(2) 22 % scripted world: the same plus the owners of the reasons as ops of the schedule — logins, friends-list '
             'changes, transfers of the REAL TransferManager added / aborted / failed / queued again / removed through its '
-            'public methods, its manage_user_tracking() cycles, server closes with session loss and new sessions '
-            '(templates: session loss, cycles between transfer changes, removal of the last transfer, random). '
+            'public methods, its manage_user_tracking() cycles, server closes with session loss and new sessions; '
+            'remove() also as a task of its own that waits in a listener the schedule holds (state listener told about '
+            'the abort / TransferRemovedEvent listener) while other removals, additions and cycles go on '
+            '(templates: session loss, cycles between transfer changes, removal of the last transfer, overlapping '
+            'removals, random). '
             '(3) 8 % free-running (monitor only): the management tasks of both real managers decide when the owners look, '
             'sends without a server connection are dropped / refused, connection losses and stop()/start() in the middle, '
+            'several remove() / download() calls made at once while no peer is reachable (every queued download has a queue '
+            'request in flight that remove() must cancel and wait for), '
             'judged at quiescent points against the observable reasons (friends list, unfinished transfers, standing '
             'explicit requests). Non-trivial: an AddUser attempt was made and a call (or cycle) was issued while that '
             'user\'s worker was busy or had not run since the previous op, or an AddUser attempt was made after a session '
-            'loss; distinct = distinct op list')
+            'loss, or a remove() waited in the middle / several calls were made at once; distinct = distinct op list')
     assumptions = [
-        'calls carry a non-empty TrackingFlag (TrackingFlag(0) is the value the retry task itself uses; the Lean '
-        'model transcribes it faithfully, the generator never issues it)',
+        'calls carry a non-empty TrackingFlag (the generator never issues TrackingFlag(0); since 040857a the retry request '
+        'is known by its identity, such a call is a no-op and the Lean theorems cover it)',
         'no call is issued while the CLOSED event is being dispatched (harness and model treat the close as one step)',
         'Network is replaced by a stub with the two coroutines the tracking code awaits (and, for the transfer manager, a '
-        'peer side on which downloads are queued remotely at once and nothing else is answered); event listeners do not '
-        'suspend; the suspension points of the worker are queue.get, the two network calls and the retry sleep',
+        'peer side on which downloads are queued remotely at once — or, free-running with `peer: hang`, never — and nothing '
+        'else is answered); listeners of the tracking events do not suspend (the suspension points of the worker are '
+        'queue.get, the two network calls and the retry sleep); remove() waits where the schedule holds it: in the state '
+        'listener told about the abort and in the TransferRemovedEvent listener (scripted), in the cancellation of the '
+        'queue request of the transfer (free-running)',
+        'a retry task starts its sleep in the loop iteration after the failed attempt: when the schedule moves the clock '
+        'in between, the timer is due one tick later than the model says; `fire` reports that lag (0 or 1 tick) to the model '
+        'and only aims at a timer that has no other timer within two ticks',
         'every op moves the clock by 1/1024 s, so two timers of one user never fall due at the same instant',
         'a change of the friends list is noticed (user management job, 1 s polling) before the next op: its latency is '
         'not explored; in the world theorems the application itself only names REQUESTED (WOp.appOk) and the own user '
@@ -1408,7 +1816,8 @@ class C15(Property):
                 '_request_untracking, _set_tracking_state, _request_retry, _get_tracked_user_object, '
                 '_on_tracking_task_done, _on_state_changed/stop (atomic), get_tracking_state/flags; the owners of the reasons '
                 '(World): UserManager._on_session_initialized / _on_friend_list_changed, '
-                'TransferManager.manage_user_tracking and the reason withdrawal of remove(), session loss. Exercised only: '
+                'TransferManager.manage_user_tracking and remove() in three steps (abort / off the list / last of that user? '
+                'then withdraw) with anything in between, session loss. Exercised only: '
                 'UserManager wrappers and management job, EventBus, enums, TransferManager.__init__/add/download/abort/queue/'
                 'remove/start/stop, its management task and request_management_cycle wiring (free-running cases, monitor only)')
 
@@ -1418,7 +1827,8 @@ class C15(Property):
     def _cases(self, seed, tier, widen):
         rng = random.Random(f'C15-{seed}')
         n = (6000 if tier == 'quick' else 200000) * widen
-        cases = [WITNESS_LOST, WITNESS_SWALLOW, WITNESS_REMOVE, WITNESS_LOSS, WITNESS_LOSS_AUTO]
+        cases = [WITNESS_LOST, WITNESS_SWALLOW, WITNESS_REMOVE, WITNESS_LOSS, WITNESS_LOSS_AUTO, WITNESS_STALE_RETRY,
+                 WITNESS_CLEAR_ALL, WITNESS_CLEAR_ALL_AUTO]
         cdir = common.CORPUS / 'C15'
         if cdir.is_dir():
             for p in sorted(cdir.glob('*.json')):
@@ -1458,12 +1868,26 @@ class C15(Property):
                 if p[-1] in ('+', '!'):
                     res.count('mod:' + p[-1])
             res.count('refused', sum(1 for o in r['obs'] if o.startswith('refused')))
+            nfire = sum(1 for ln, o in zip(r['lines'], r['obs']) if ln.startswith('fire') and not o.startswith('refused'))
+            if nfire:
+                res.count('retry-windows', nfire)
+                res.count('retry-window:calls-inside', sum(
+                    1 for j, ln in enumerate(r['lines']) if ln.split()[0] in ('track', 'untrack') and j > 0
+                    and (r['lines'][j - 1].startswith('fire') or (r['lines'][j - 1].split()[0] in ('track', 'untrack')
+                                                                   and r['lines'][j - 1].endswith('+')
+                                                                   and any(x.startswith('fire') for x in r['lines'][max(0, j - 5):j])))))
+            nrm = sum(1 for ln in r['lines'] if ln.startswith('trmp ') and ln.split()[2] not in ('123', '-'))
+            if nrm:
+                res.count('removal-steps-apart', nrm)
+            if r.get('auto'):
+                res.count('auto:calls-at-once', sum(1 for op in c['ops'] if op[0] == 'trmg'))
             if r.get('auto'):
                 res.count('auto:quiescent-comparisons', sum(1 for cp in r['checkpoints'] if cp['quiesced']))
                 res.count('auto:in-session-after-loss', sum(1 for cp in r['checkpoints']
                                                             if cp['quiesced'] and cp['session'] and cp['lost_sessions']))
             if _is_nontrivial(c, r):
-                res.nontrivial_keys.add(common.sha([c['ops'], c.get('friends0'), c.get('auto'), c.get('offline')]))
+                res.nontrivial_keys.add(common.sha([c['ops'], c.get('friends0'), c.get('auto'), c.get('offline'),
+                                                    c.get('peer')]))
             if model is not None and r['lines']:
                 res.traces_validated += 1
                 if model[i] != r['obs']:
